@@ -36,13 +36,13 @@ theorem garbage_dropped (c : Ctx) (now : Int) (np : Option Nat) (coll : Nat)
     doActiveIdle c now = .ok { (handleLostToken c now).1 with rx := [] } := by
   have := (C16.resync c.rx hg .sc (by trivial)).1
   unfold doActiveIdle
-  rw [hst]
-  simp only
+  -- destructure the pair BEFORE the iota steps (kernel: 70 s otherwise)
   cases hh : handleLostToken c now with
   | mk c1 r =>
     rw [hh] at hq hsame hrx
     simp only at hq hsame hrx
     subst hq
+    rw [hst]
     simp only [hsame, hst, hrx, this, foldTelegrams]
 
 /-- `backoff`: a telegram that is not a valid reply, arriving while a data reply is awaited, sends the
